@@ -2,7 +2,7 @@
 // One text line per case in, one JSON line per case out (flushed per case so that a dying driver identifies its case).
 //   set <add|str> <hexA> <hexB>
 //   ranges <n> <lo> <hi> ...
-//   tok <mode> <hexbuf> <nops> { <op> <hexset> <limit|npos> <hexstr> }*
+//   tok <mode> <hexbuf> <nsets> <hexset>* <nops> { <op> <set index> <limit|npos> <hexstr> }*
 //       mode bit 0: the buffer is a slice of a larger shared blob; bit 1: "fresh" = reset(buffer) before every operation
 #include "squid.h"
 #include "base/CharacterSet.h"
@@ -68,8 +68,13 @@ int main() {
             const int mode = atoi(t[1].c_str());
             const bool inner = mode & 1, fresh = mode & 2;
             const std::string buf = U::Unhex(t[2]);
-            const size_t nops = strtoul(t[3].c_str(), nullptr, 10);
-            if (t.size() != 4 + 4 * nops) continue;
+            const size_t nsets = strtoul(t[3].c_str(), nullptr, 10);
+            if (t.size() < 5 + nsets) continue;
+            std::vector<CharacterSet> csets;
+            for (size_t k = 0; k < nsets; ++k) csets.push_back(Build(U::Unhex(t[4 + k]), false));
+            const size_t nops = strtoul(t[4 + nsets].c_str(), nullptr, 10);
+            const size_t o0 = 5 + nsets;
+            if (t.size() != o0 + 4 * nops) continue;
             SBuf in;
             if (inner) { // the buffer is a slice of a larger, shared blob
                 const std::string big = std::string("\xff\x00<pad", 6) + buf + std::string(">tail\x00\xff", 7);
@@ -79,14 +84,16 @@ int main() {
                 in = SBuf(buf.data(), buf.size());
             Parser::Tokenizer tk(in);
             const std::string tok0("\x01\x02\x03", 3);
-            std::ostringstream ops, outs;
+            std::ostringstream ops, outs, sets;
+            for (size_t k = 0; k < nsets; ++k) sets << (k ? "," : "") << U::Bytes(Members(csets[k])); // as read back through operator[]
             for (size_t k = 0; k < nops; ++k) {
-                const std::string &op = t[4 + 4 * k];
-                const std::string setChars = U::Unhex(t[5 + 4 * k]);
-                const std::string &limTxt = t[6 + 4 * k];
-                const std::string str = U::Unhex(t[7 + 4 * k]);
+                const std::string &op = t[o0 + 4 * k];
+                const size_t setIdx = strtoul(t[o0 + 1 + 4 * k].c_str(), nullptr, 10);
+                if (setIdx >= nsets) return 3;
+                const std::string &limTxt = t[o0 + 2 + 4 * k];
+                const std::string str = U::Unhex(t[o0 + 3 + 4 * k]);
                 const SBuf::size_type limit = limTxt == "npos" ? SBuf::npos : SBuf::size_type(strtoull(limTxt.c_str(), nullptr, 10));
-                const CharacterSet cs = Build(setChars, false);
+                const CharacterSet &cs = csets[setIdx];
                 const SBuf needle(str.data(), str.size());
                 SBuf tok(tok0.data(), tok0.size());
                 long ret = -1;
@@ -103,12 +110,12 @@ int main() {
                 else if (op == "token") ret = tk.token(tok, cs);
                 // limits are projected for TLC's 32-bit integers: npos -> -1, anything above 2^30 -> 2^30 (longer than any buffer used)
                 const long limJ = limit == SBuf::npos ? -1L : (limit > (1u << 30) ? long(1u << 30) : long(limit));
-                ops << (k ? "," : "") << "{\"op\":\"" << op << "\",\"set\":" << U::Bytes(Members(cs)) << ",\"limit\":" << limJ << ",\"str\":" << U::Bytes(str) << "}";
+                ops << (k ? "," : "") << "{\"op\":\"" << op << "\",\"si\":" << (setIdx + 1) << ",\"limit\":" << limJ << ",\"str\":" << U::Bytes(str) << "}";
                 outs << (k ? "," : "") << "{\"ret\":" << ret << ",\"tok\":" << SbufBytes(tok) << ",\"rem\":" << SbufBytes(tk.remaining())
                      << ",\"parsed\":" << tk.parsedSize() << ",\"atEnd\":" << U::B(tk.atEnd()) << "}";
             }
             out << "{\"fn\":\"tok\",\"mode\":" << mode << ",\"fresh\":" << U::B(fresh) << ",\"buf\":" << U::Bytes(buf) << ",\"tok0\":" << U::Bytes(tok0)
-                << ",\"ops\":[" << ops.str() << "],\"outs\":[" << outs.str() << "],\"ub\":" << U::B(U::TakeReports() > 0) << "}";
+                << ",\"sets\":[" << sets.str() << "],\"ops\":[" << ops.str() << "],\"outs\":[" << outs.str() << "],\"ub\":" << U::B(U::TakeReports() > 0) << "}";
         } else
             continue;
         std::cout << out.str() << std::endl;
